@@ -237,17 +237,26 @@ def _check_conf(name, conf, sites, titrate_only, viol, counts, classes, c, check
                 if not g["titratable"] or abs(g["pka"] - 99.99) < 1e-9:
                     viol.append({"cls": "census-not-titrated", "msg": "%s: %s titratable=%s pKa=%.2f although not bridged" % (
                         name, g["label"], g["titratable"], g["pka"]), "loc": (s["resid"][0], s["resid"][1])})
+    extra_names = {}
     for k, gs in got.items():
         if k not in exp:
             if allow_extra:
                 # a conformation of a multi-model input is completed with atoms (and their sites)
-                # of the other models: extra sites are C08's subject
+                # of the other models: extra sites are C08's subject - but whatever was copied into one residue
+                # position is one residue, not the union of the residues other models have there
                 counts["topup_extra_sites"] = counts.get("topup_extra_sites", 0) + 1
+                g = gs[0]
+                if g["rtype"] not in ("N+", "C-"):
+                    extra_names.setdefault((g["aid"][1], g["aid"][2], g["aid"][3]), set()).add(g["aid"][4].strip())
                 continue
             g = gs[0]
             viol.append({"cls": "census-spurious", "msg": "%s: reported group %s (%s on atom %s) has no site in the structure%s" % (
                 name, g["label"], g["rtype"], g["aid"][5], " (or is not in the titrate-only list)" if titrate_only is not None else ""),
                 "detail": {"rtype": g["rtype"]}, "loc": (g["aid"][1], g["aid"][2])})
+    for pos_, names_ in extra_names.items():
+        if len(names_) > 1:
+            viol.append({"cls": "census-spurious", "msg": "%s: the sites completed from other models at residue %r belong to different residues %r - a position holds one residue" % (
+                name, pos_, sorted(names_)), "loc": (pos_[0], pos_[1])})
     if check_hetero:
         _check_hetero(name, conf, viol, counts, classes, c, titrate_only)
 
